@@ -697,9 +697,15 @@ func HashMapOfValueCopy(vm *Thread, target *HashMapOfValue, source *HashMapOfVal
 		if i == -1 {
 			panic("no room in target hashmap during copy")
 		}
+		existing := target.Table[i]
+		if existing.Key().IsUndefined() {
+			// count the pair only when it does not overwrite an existing key
+			target.Elements++
+			if existing.Value().IsUndefined() {
+				target.OccupiedSlots++
+			}
+		}
 		target.Table[i] = entry
-		target.OccupiedSlots++
-		target.Elements++
 	}
 
 	return value.Undefined
@@ -720,9 +726,15 @@ func HashMapOfValueCopyInterface(vm *Thread, target *HashMapOfValue, source Hash
 		if i == -1 {
 			panic("no room in target hashmap during copy")
 		}
+		existing := target.Table[i]
+		if existing.Key().IsUndefined() {
+			// count the pair only when it does not overwrite an existing key
+			target.Elements++
+			if existing.Value().IsUndefined() {
+				target.OccupiedSlots++
+			}
+		}
 		target.Table[i] = entry
-		target.OccupiedSlots++
-		target.Elements++
 	}
 
 	return value.Undefined
